@@ -44,6 +44,31 @@ CHECKS = {
               "reject with ValueError."),
         note="Trusted: hashlib (OpenSSL) and ref/hashes.py self-tests (RFC/NIST vectors); MD5/SHA-1/SHA-2/BLAKE2 have hashlib as the only oracle. Messages up to 2 MiB; bit-length counter carries beyond 2^32 bits are not reached.",
         ref="DESIGN.md §4 C03"),
+    "C04": dict(
+        technique="runtime monitor: acceptance oracle with independent verifiers (RFC 8017, FIPS 186-4, RFC 6979, RFC 8032 models decide the validity of ANY candidate) + byte equality for deterministic / tape-driven signing + repeatability checks",
+        text=("Four demands per scheme (RSASSA-PKCS1-v1_5, RSASSA-PSS, DSA and ECDSA in FIPS and RFC 6979 modes with binary/DER encodings, Ed25519/ctx/ph, Ed448/ph): soundness - "
+              "library accepts => the model says valid, for every candidate; completeness on everything sign() produced and on valid signatures the library did not produce "
+              "(constructed x(R) >= n cases, Wycheproof tcId 285); byte equality with the model for the deterministic schemes and, under an entropy tape, for PSS salts and FIPS "
+              "(EC)DSA nonces; repeatability (sign/verify again, digest unchanged, XOF still updatable with the same future output).  Candidate batteries: bit flips, other message/"
+              "key, r or s in {0, q, +q, 2^bits-1}, (r, q-s), lengths +-1, ~30 malformed DER shapes, EdDSA S+L / S=L / S=0 with small-order A, non-canonical / off-curve / small-"
+              "order R and A, wrong ctx / ph flag, RSA s >= n and s+n, and forged encoded messages signed with the private key for chosen EM (PS < 8, non-FF PS, garbage after "
+              "DigestInfo, wrong OID / hash length, PSS wrong trailer / top bits / PS / 01 / salt length).  Keys: RSA 1024..1031 bits (thorough to 2049) with e in {3,17,65537}, "
+              "four DSA domains, P-192..P-521, Ed25519/Ed448 incl. small-order public keys."),
+        note="Trusted: ref/sigs.py, ref/rsa.py, ref/ec.py (RFC 6979, RFC 8032, CAVS vectors). Where RFC 8032 allows either verification equation, soundness is demanded only when both reject. Forgery classes x random instances, not all byte strings.",
+        ref="DESIGN.md §4 C04"),
+    "C05": dict(
+        technique="runtime monitor: invariant at a hook (check_key_invariants on every key object returned by generate/construct/import_key, computed with Python integers and reference curve arithmetic) + by-construction invalid inputs that must be refused",
+        text=("Every key handed out during the workloads passes through a hook that recomputes its invariants from the public accessors only: RSA n = pq, p and q BPSW-prime, "
+              "e*d = 1 mod lcm, CRT values, odd n, generate(): exact size, |p-q| and sqrt(2) margins, d > 2^(bits/2), gcd(e, p-1) = 1; DSA/ElGamal primes, q | p-1, generator order, "
+              "y = g^x, ranges; EC coordinates < p, on the named curve (model arithmetic), not the neutral element, d in [1, n-1] or correctly expanded/clamped seed, d*G = Q by the "
+              "model's scalar multiplication, Montgomery u not low-order.  Workloads: generate() under PRNG, boundary and scripted tapes (oracle-built prime candidates that sit "
+              "within 2^(bits/2-100) of p, q = p, exponents giving a tiny d); construct() with valid tuples and ~70 perturbations per type (Carmichael / p(2p-1) / prime-square "
+              "factors, wrong d, d+lcm, wrong u, (n,e,d) factor recovery, g of wrong order, y outside the subgroup, composite p or q consistent with everything else, off-curve / "
+              ">= p / neutral / twist points, scalars 0, n, n+1, mismatched halves on every curve family, every low-order u with offsets); import_key of library- and model-written "
+              "files in every format and of the same containers carrying invalid numbers.  Invalid-by-construction input that is accepted, or refused with another exception than "
+              "ValueError, is a violation."),
+        note="Trusted: ref/primes.py (BPSW), ref/ec.py, ref/keyfiles.py encoders. Keys <= 3072 bits. Four known findings (public sections / PKCS#8 publicKey field ignored by importers) are listed in known_findings.json.",
+        ref="DESIGN.md §4 C05"),
     "C06": dict(
         technique="runtime monitor: reference-model oracle (exact affine Weierstrass / Edwards / Montgomery arithmetic on Python integers, SP 800-56A and RFC 7748 secrets) over point/scalar/role grids with replayed blinding seeds",
         text=("Every EccPoint/EccXPoint operator (+ += - * *= rmul == != double copy xy is_point_at_infinity point_at_infinity) on all nine curves is compared with EXACT "
